@@ -1,8 +1,11 @@
 (** C19: case type and checker. *)
-From GV Require Export Mergeable WorldCheck Verdict.
+From GV Require Export Mergeable FileRules WorldCheck Verdict.
 
 Inductive c19case :=
-  C19 (w : world) (ref : bytes) (mtree : N) (obs : mres) (recorders : list (key * N * vout)) | C19Panic.
+| C19 (w : world) (ref : bytes) (mtree : N) (obs : mres) (recorders : list (key * N * vout))
+  (* policies with file rules: [feature] is the tip being merged *)
+| C19F (fw : fworld) (ref : bytes) (mtree : N) (feature : N) (obs : mres) (recorders : list (key * N * vout))
+| C19Panic.
 
 Definition mres_eqb (a b : mres) : bool :=
   match a, b with
@@ -64,13 +67,8 @@ Definition rule_key (w : world) (ref : bytes) (k : key) : bool :=
 Definition rule_threshold (w : world) (ref : bytes) : Z :=
   match branch_rule w ref with Some v => vr_thr v | None => 0%Z end.
 
-Definition c19_check (c : c19case) : verdict :=
-  match c with
-  | C19Panic => VSpec 9
-  | C19 w ref mtree obs recs =>
-      let agree_m := mres_eqb (verify_mergeable w ref mtree) obs in
-      let agree_v := forallb (fun r => vout_eqb (verify_full (with_merge w ref (snd (fst r)) (fst (fst r))) ref) (snd r)) recs in
-      let ok r := vout_ok (snd r) in
+Definition c19_decide (w : world) (ref : bytes) (mtree : N) (obs : mres) (recs : list (key * N * vout)) (agree_m agree_v : bool) : verdict :=
+      let ok (r : key * N * vout) := vout_ok (snd r) in
       let spec :=
         match obs with
         | MPossible false => if forallb ok recs then 0 else 1          (* verifies whoever records it *)
@@ -91,5 +89,42 @@ Definition c19_check (c : c19case) : verdict :=
       | 6 => if agree_m && agree_v then VFinding 6 else VSpec 3
       | 9 => if agree_m && agree_v then VFinding 9 else VSpec 3
       | n => VSpec n
+      end.
+
+(** VerifyMergeable with file rules: the branch-rule answer, then every commit the feature tip would
+    bring in is judged as at verification time, with the approvals for the merge *)
+Definition verify_mergeable_files (fw : fworld) (ref : bytes) (mtree feature : N) : mres :=
+  let w := fw_world fw in
+  match verify_mergeable w ref mtree with
+  | MNotPossible => MNotPossible
+  | MPossible need =>
+      match load_state w 0 with
+      | None => MNotPossible
+      | Some ps =>
+          let n := List.length (w_log w) in
+          let from := match latest_for w ref n true false with Some (_, e) => Some (entry_target e) | None => None end in
+          let env := match attest_before w n with
+                     | Some auths => match find_authz auths ref (match from with Some f => f | None => 0%N end) mtree with AzEnv s => env_of s | _ => None end
+                     | None => None
+                     end in
+          if entry_files_ok ps (fw_graph fw) env feature from then MPossible need else MNotPossible
       end
+  end.
+
+Definition fw_with_merge (fw : fworld) (ref : bytes) (commit : N) (signer : key) : fworld :=
+  {| fw_world := with_merge (fw_world fw) ref commit signer; fw_graph := fw_graph fw |}.
+
+Definition c19_check (c : c19case) : verdict :=
+  match c with
+  | C19Panic => VSpec 9
+  | C19 w ref mtree obs recs =>
+      let agree_m := mres_eqb (verify_mergeable w ref mtree) obs in
+      let agree_v := forallb (fun r => vout_eqb (verify_full (with_merge w ref (snd (fst r)) (fst (fst r))) ref) (snd r)) recs in
+      c19_decide w ref mtree obs recs agree_m agree_v
+  | C19F fw ref mtree feature obs recs =>
+      if negb (c10_shape (fw_world fw) ref) then VMismatch 9
+      else
+        let agree_m := mres_eqb (verify_mergeable_files fw ref mtree feature) obs in
+        let agree_v := forallb (fun r => vout_eqb (verify_full_files (fw_with_merge fw ref (snd (fst r)) (fst (fst r))) ref) (snd r)) recs in
+        c19_decide (fw_world fw) ref mtree obs recs agree_m agree_v
   end.
